@@ -100,6 +100,12 @@ func c12Gen(l *c12Loop, inner [2]string) {
 		b2 := fmt.Sprintf("if acc > 9 {\nbreak\n}\n%s", body)
 		plain = fmt.Sprintf("for %s := %s; %s %s %s; %s {\n%s\n}", v, S, v, l.op, N, upd, b2)
 		nat = fmt.Sprintf("begin(%d)\nfor %s := %s; %s && %s %s %s; %s {\nbody(%d)\n%s\n}", id, v, S, hdr, v, l.op, N, upd, id, b2)
+	case "continuebreak":
+		// three-clause loop: a continue, THEN a conditional break (the breaking block is numbered
+		// after the post block, which is the latch)
+		b2 := fmt.Sprintf("if %s == 1 {\ncontinue\n}\nif acc > 4 {\nbreak\n}\n%s", v, body)
+		plain = fmt.Sprintf("for %s := %s; %s %s %s; %s {\n%s\n}", v, S, v, l.op, N, upd, b2)
+		nat = fmt.Sprintf("begin(%d)\nfor %s := %s; %s && %s %s %s; %s {\nbody(%d)\n%s\n}", id, v, S, hdr, v, l.op, N, upd, id, b2)
 	case "trailingbreak":
 		// post-less loop whose LAST statement may break: the breaking block is also the latch
 		b2 := fmt.Sprintf("%s\n%s\nif acc > 9 {\nbreak\n}", body, upd)
@@ -144,7 +150,7 @@ func c12Family(thorough bool) []*c12Func {
 	if thorough {
 		types_ = []string{"int", "int8", "uint8", "int16", "uint32"}
 	}
-	shapes := []string{"for3", "while", "bottom", "bottompre", "multientry", "exittrue", "continue", "extrabreak", "trailingbreak", "condupdate", "twolatch"}
+	shapes := []string{"for3", "while", "bottom", "bottompre", "multientry", "exittrue", "continue", "extrabreak", "continuebreak", "trailingbreak", "condupdate", "twolatch"}
 	for _, T := range types_ {
 		for _, shape := range shapes {
 			for _, op := range []string{"<", "<=", ">", ">=", "!="} {
